@@ -6,13 +6,12 @@ package c15
 import (
 	"context"
 	"crypto"
-	"crypto/ecdsa"
-	"crypto/rsa"
 	"crypto/x509"
 	"encoding/json"
 	"encoding/pem"
 	"errors"
 	"fmt"
+	"io"
 	"os"
 	"path/filepath"
 	"sort"
@@ -61,6 +60,7 @@ type Case struct {
 	ValidAsSet   bool     `json:"validAsSet"`
 	ValidAsMulti bool     `json:"validAsMulti"`
 	Handlers     []string `json:"handlers"`
+	Variant      *int     `json:"variant,omitempty"` // replay: the materialization variant of the original run
 }
 
 // SetCase is a list of configs for one backend.
@@ -69,6 +69,7 @@ type SetCase struct {
 	Valid    bool     `json:"valid"`
 	Failed   []string `json:"failed"`
 	Loadable bool     `json:"loadable"`
+	Variant  *int     `json:"variant,omitempty"`
 }
 
 // Backend mirrors a LogBackend.
@@ -91,6 +92,7 @@ type MultiCase struct {
 	Valid    bool     `json:"valid"`
 	Failed   []string `json:"failed"`
 	Loadable bool     `json:"loadable"`
+	Variant  *int     `json:"variant,omitempty"`
 }
 
 // Kind is what the instance state machine knows about the configuration.
@@ -139,11 +141,6 @@ type World struct {
 	srcSTH     map[string]*ct.SignedTreeHead // "<kind>/<size>"
 	srcRaw     map[string][]byte
 	mu         sync.Mutex
-}
-
-func mustAny(m interface {
-	ProtoReflect() interface{ Descriptor() interface{} }
-}) {
 }
 
 // NewWorld generates keys, the tree and the STH catalogue.
@@ -237,7 +234,7 @@ func NewWorld(maxSize, frozenSize int) (*World, error) {
 type pubOnly struct{ pub crypto.PublicKey }
 
 func (p pubOnly) Public() crypto.PublicKey { return p.pub }
-func (p pubOnly) Sign(_ interface{ Read([]byte) (int, error) }, _ []byte, _ crypto.SignerOpts) ([]byte, error) {
+func (p pubOnly) Sign(_ io.Reader, _ []byte, _ crypto.SignerOpts) ([]byte, error) {
 	return nil, errors.New("public key only")
 }
 
@@ -430,6 +427,3 @@ func parseSTH(b []byte) (*sthBody, error) {
 	}
 	return &s, nil
 }
-
-var _ = rsa.PublicKey{}
-var _ = ecdsa.PublicKey{}
